@@ -150,30 +150,54 @@ Definition probe_tpl_eqb (x y : probe) : bool :=
                          str_eqb (h_scheme a) (h_scheme c) && str_eqb (h_port a) (h_port c))
              (p_http x) (p_http y).
 
-Definition holds_replica (c : ocase) (k : str) (r : proc) : bool :=
+(* the clauses of the property for one observed replica, separately (for diagnostics) *)
+Definition rep_defaults (c : ocase) (k : str) (r : proc) : bool :=
   match lookup (name r) (c_procs c) with
   | None => false                                   (* "has its name": the key of a process in the file *)
   | Some s =>
       let n := if (s_replicas s <? 1)%Z then 1%Z else s_replicas s in
-      let i := replica_num r in
-      let R := spec_render (c_gvars c) (s_vars s) i in
       str_eqb (namespace r) (match s_namespace s with [] => s_default | x => x end) &&
       (1 <=? replicas r)%Z && Z.eqb (replicas r) n &&
       (1 <=? launch_timeout r)%Z &&
-      Z.eqb (launch_timeout r) (if (s_lt s <? 1)%Z then 5%Z else s_lt s) &&
-      Nat.ltb i (Z.to_nat n) &&
+      Z.eqb (launch_timeout r) (if (s_lt s <? 1)%Z then 5%Z else s_lt s)
+  end.
+Definition rep_names (c : ocase) (k : str) (r : proc) : bool :=
+  match lookup (name r) (c_procs c) with
+  | None => false
+  | Some s =>
+      let n := if (s_replicas s <? 1)%Z then 1%Z else s_replicas s in
+      Nat.ltb (replica_num r) (Z.to_nat n) &&
       str_eqb k (replica_name r) &&
-      str_eqb k (spec_name (name r) (Z.to_nat n) i) &&
+      str_eqb k (spec_name (name r) (Z.to_nat n) (replica_num r))
+  end.
+Definition rep_fields (c : ocase) (k : str) (r : proc) : bool :=
+  match lookup (name r) (c_procs c) with
+  | None => false
+  | Some s =>
+      let R := spec_render (c_gvars c) (s_vars s) (replica_num r) in
       str_eqb (command r) (R (s_command s)) &&
       str_eqb (working_dir r) (R (s_wd s)) &&
       str_eqb (log_location r) (R (s_log s)) &&
-      str_eqb (description r) (R (s_desc s)) &&
+      str_eqb (description r) (R (s_desc s))
+  end.
+Definition rep_probes (c : ocase) (k : str) (r : proc) : bool :=
+  match lookup (name r) (c_procs c) with
+  | None => false
+  | Some s =>
+      let i := replica_num r in
       option_eqb probe_tpl_eqb (readiness r)
                  (option_map (spec_probe (c_gvars c) (s_vars s) i (unparse (s_wd s))) (s_ready s)) &&
       option_eqb probe_tpl_eqb (liveness r)
-                 (option_map (spec_probe (c_gvars c) (s_vars s) i (unparse (s_wd s))) (s_live s)) &&
-      vars_eqb (pvars r) (upsert pc_replica_num (sdec i) (s_vars s))
+                 (option_map (spec_probe (c_gvars c) (s_vars s) i (unparse (s_wd s))) (s_live s))
   end.
+Definition rep_vars (c : ocase) (k : str) (r : proc) : bool :=
+  match lookup (name r) (c_procs c) with
+  | None => false
+  | Some s => vars_eqb (pvars r) (upsert pc_replica_num (sdec (replica_num r)) (s_vars s))
+  end.
+
+Definition holds_replica (c : ocase) (k : str) (r : proc) : bool :=
+  rep_defaults c k r && rep_names c k r && rep_fields c k r && rep_probes c k r && rep_vars c k r.
 
 (* every replica number of every process of the file is there (unless a process with several
    replicas produces the same name, which then wins) *)
@@ -196,6 +220,16 @@ Definition holds_C16 (c : ocase) : bool :=
   | [o] => holds_obs c o                     (* all loads gave the same project *)
   | _ => false
   end.
+
+(* which clauses fail on a case: 1 loads differ, 2 defaults/name, 4 replica names, 8 command/working dir/
+   log location/description, 16 probe fields, 32 vars, 64 a replica is missing or keys repeat *)
+Definition diag (c : ocase) : nat :=
+  let all f := forallb (fun o => forallb (fun kv => f c (fst kv) (snd kv)) (snd o)) (c_obs c) in
+  (match c_obs c with [_] => 0 | _ => 1 end) +
+  (if all rep_defaults then 0 else 2) + (if all rep_names then 0 else 4) +
+  (if all rep_fields then 0 else 8) + (if all rep_probes then 0 else 16) + (if all rep_vars then 0 else 32) +
+  (if forallb (fun o => distinct (map fst (snd o)) && all_present c (snd o)) (c_obs c) then 0 else 64).
+Definition diags (cs : list ocase) : list nat := map diag cs.
 
 Definition bad_model (cs : list ocase) : list nat := failing model_ok cs.
 Definition bad_monitor (cs : list ocase) : list nat := failing holds_C16 cs.
